@@ -120,6 +120,7 @@ class DefPairs(PairSetObj):
         _method(self, 'update', lambda p, a, k: self._bulk(p, a[1], True))
         _method(self, 'difference_update', lambda p, a, k: self._bulk(p, a[1], False))
         _method(self, '__ior__', self._ior)
+        _method(self, '__isub__', self._isub)
 
     def _bulk(self, p, it, add):
         if not isinstance(it, (IterV, SeqV)):
@@ -153,6 +154,18 @@ class DefPairs(PairSetObj):
         n = next(p.eng.counter)
         P2 = Const('pairs!%d' % n, PSet)
         p.assume(ForAll([a_, b_], Select(P2, a_, b_) == Or(Select(self.P, a_, b_), Select(other.P, a_, b_)),
+                        patterns=[Select(P2, a_, b_), Select(self.P, a_, b_), Select(other.P, a_, b_)]))
+        self.P = P2
+        return self
+
+    def _isub(self, p, a, k):
+        """pairs -= other (builtin set.__isub__ with another set of pairs): the own pairs that are not in the other set; returns self"""
+        other = a[1]
+        if not isinstance(other, PairSetObj) or other is self:
+            raise Unsupported('-= with %r' % (other,))
+        n = next(p.eng.counter)
+        P2 = Const('pairs!%d' % n, PSet)
+        p.assume(ForAll([a_, b_], Select(P2, a_, b_) == And(Select(self.P, a_, b_), Not(Select(other.P, a_, b_))),
                         patterns=[Select(P2, a_, b_), Select(self.P, a_, b_), Select(other.P, a_, b_)]))
         self.P = P2
         return self
@@ -200,14 +213,14 @@ def cells_equal(path, name, C, spec):
     path.oblige(name, 'post', ForAll([a_, b_], Select(C, a_, b_) == spec(a_, b_), patterns=[Select(C, a_, b_)]))
 
 
-def _unit(body):
+def _unit(body, extra_axioms=None):
     def make():
         def harness(path):
             env, extra, finish = body(path)
             loops = {'globals': lib.builtins()}
             loops.update(extra or {})
             return env, loops, finish
-        return axioms(), harness
+        return axioms() + (extra_axioms() if extra_axioms else []), harness
     return make
 
 
@@ -257,7 +270,9 @@ def _add_or_set(kind, axis):
         x = fresh_name(path, 'obj' if axis == 'object' else 'prop')
         xs = NameSeqArg(path, 'properties' if axis == 'object' else 'objects')
         env = {'self': d, ('obj' if axis == 'object' else 'prop'): x, ('properties' if axis == 'object' else 'objects'): xs}
-        extra = {}
+        # should the bulk call `pairs.update(<generator of pairs>)` be spelled `pairs |= {<set comprehension of pairs>}`: the closed form of a
+        # pure set comprehension of pairs, generated from the real AST (as in inverted / transposed)
+        extra = {'closed_form': {'SetComp#0': lambda interp, env_, node: pure_pairset_comprehension(path, interp, env_, node)}}
         if kind == 'set':
             # `properties = tools.Unique(properties)`: contract of Unique.__init__ (unit tools.Unique.__init__):
             # the names of the argument in the order given, without repeats
@@ -344,7 +359,9 @@ def _remove(axis):
                 path.oblige('post/properties', 'post', And(P == seqs.erase(d.P0, x.t), O == d.O0))
                 cells_equal(path, 'post/cells', C, lambda a, b: And(Select(d.C0, a, b), b != x.t))
             post_wf(path, d)
-        return {'self': d, ('obj' if axis == 'object' else 'prop'): x}, None, finish
+        # (`pairs.difference_update(<generator>)` spelled `pairs -= {<set comprehension>}`: closed form from the real AST)
+        return ({'self': d, ('obj' if axis == 'object' else 'prop'): x},
+                {'closed_form': {'SetComp#0': lambda interp, env_, node: pure_pairset_comprehension(path, interp, env_, node)}}, finish)
     return body
 
 
@@ -461,6 +478,19 @@ def _lemma_fold():
     return axioms(), prove
 
 
+def _lemma_discard_fold():
+    def prove(path):
+        from pyvc.engine import VC
+        s, xs = Const('s0', Seq), Const('xs0', Seq)
+        k = Int('k0')
+        # induction on k (schema of the engine, as for lemma.fold_add): base and step
+        path.eng.add_vc(VC('base', 'lemma', [], seqs.st_discard_fold_present(s, xs, 0), []))
+        path.eng.add_vc(VC('step', 'lemma', [k >= 0, seqs.st_discard_fold_present(s, xs, k)], seqs.st_discard_fold_present(s, xs, k + 1), []))
+    return axioms() + seqs.discard_axioms(), prove
+
+
+register(Unit('lemma.discard_fold_present', None, None, _lemma_discard_fold,
+              assumptions=['induction on k carried out as base + step obligations (schema of the engine)']))
 register(Unit('lemma.fold_add', None, None, _lemma_fold,
               assumptions=['induction on k carried out as base + step obligations (schema of the engine)']))
 
@@ -654,10 +684,21 @@ def _unique_and(self, p, a, k):
     return UniqueObj(p, seqs.keep(seq_of_iterable(other), seqs.setof(self.s)), '(%s & %s)' % (self.name, other.name))
 
 
+def _unique_isub(self, p, a, k):
+    """contract of MutableSet.__isub__ on a Unique (proved in unit stdlib.MutableSet.__isub__ for an argument that is not the Unique itself): discards the
+    items of the argument one by one, in the order given; returns self.  (`u -= u` takes the `self.clear()` branch of the mixin: not modelled.)"""
+    other = a[1]
+    if other is self:
+        raise Unsupported('u -= u: MutableSet.__isub__ on the Unique itself')
+    xs = seq_of_iterable(other)
+    self.s = seqs.discard_fold(self.s, xs, seqs.slen(xs))
+    return self
+
+
 def _install_set_algebra():
     import types
     for cls, nm, fn in ((PairSetObj, '__xor__', _xor), (PairSetObj, '__iand__', _pairs_iand),
-                        (UniqueObj, '__iand__', _unique_iand), (UniqueObj, '__and__', _unique_and)):
+                        (UniqueObj, '__iand__', _unique_iand), (UniqueObj, '__and__', _unique_and), (UniqueObj, '__isub__', _unique_isub)):
         orig = cls.__init__
 
         def init(self, *args, _orig=orig, _nm=nm, _fn=fn, **kw):
@@ -1080,6 +1121,7 @@ def _remove_empty(axis):
                     ('nodup', nodup(s))]
         spec = LoopSpec(inv)
         spec.havoc_objs = [uobj]
+        spec.on_entry = lambda p, env_: made.__setitem__('removal-loop', True)
 
         def finish(path, env, outcome):
             if outcome[0] != 'return':
@@ -1091,6 +1133,11 @@ def _remove_empty(axis):
                         else And(BoolVal(r is made['list']), r.s == E))
             # use lemma.erase_fold_keep (assumed) and mem-infirst
             path.assume([seqs.st_erase_fold_keep(L0, S, Sc), seqs.st_mem_infirst(E)])
+            if not made.get('removal-loop'):
+                # the names were not removed by the loop of `.remove()` calls (clause 0) but at once (`self._objects -= empty`: contract of
+                # MutableSet.__isub__, the fold of discard): use lemma.discard_fold_present -- the empty names are distinct names of the
+                # axis, so discarding them one by one is removing them one by one
+                path.assume(seqs.st_discard_fold_present(L0, E, seqs.slen(E)))
             kept = seqs.keep(L0, S)
             if axis == 'object':
                 path.oblige('post/view', 'post', And(O == kept, P == d.P0, C == d.C0))
@@ -1105,9 +1152,11 @@ def _remove_empty(axis):
 
 for _ax in ('object', 'property'):
     _nm = 'remove_empty_%s' % ('objects' if _ax == 'object' else 'properties')
-    register(Unit('definitions.' + _nm, D, 'MutableMixin.' + _nm, _unit(_remove_empty(_ax)),
+    register(Unit('definitions.' + _nm, D, 'MutableMixin.' + _nm, _unit(_remove_empty(_ax), seqs.discard_axioms),
                   assumptions=ASSUME + ['lemma.erase_fold_keep (Lean: lemmas/Seq.lean lemma_erase_fold_keep; SMT<->Lean transcription by hand): removing the names outside T one by one leaves keep(s, T)',
-                                        'contract of MutableSet.remove on Unique (unit stdlib.MutableSet.remove)'],
+                                        'contract of MutableSet.remove on Unique (unit stdlib.MutableSet.remove)',
+                                        'should the names be removed by `-=`: contract of MutableSet.__isub__ on Unique (unit stdlib.MutableSet.__isub__) and '
+                                        'lemma.discard_fold_present (unit of that name: discarding distinct present names one by one = removing them one by one)'],
                   linkage=[('concepts.Definition.' + _nm, None)]))
 
 
